@@ -265,8 +265,8 @@ def plan(tier, seed):
     if q:
         for L in (9, 12):
             specs.append({"kind": "exhaustive", "L": L, "stride": 12, "phase": 0})
-    for i in range(5 if q else 10):
-        specs.append({"kind": "offaxis", "sub": i, "cases": 250 if q else 3000, "budget_s": 100 if q else 1500})
+    for i in range(5 if q else 16):
+        specs.append({"kind": "offaxis", "sub": i, "cases": 250 if q else 8000, "budget_s": 100 if q else 600})
     return specs
 
 
